@@ -162,14 +162,17 @@ class KAISAAssignment(WorkAssignment):
         if 0 > world_size:
             raise ValueError('world_size must be > 0')
         grad_workers = max(1, world_size * grad_worker_fraction)
-        if grad_workers != int(grad_workers):
+        # world_size * (k / world_size) is not always exactly k in floating
+        # point (e.g., 98 * (2 / 98) = 1.9999999999999998) so compare to the
+        # nearest integer with a small tolerance.
+        if abs(grad_workers - round(grad_workers)) > 1e-6:
             raise ValueError(
                 'world_size*grad_worker_fraction must produce an integer '
                 f'value. Found {world_size}*{grad_worker_fraction}'
                 f'={grad_workers}.',
             )
         else:
-            grad_workers = int(grad_workers)
+            grad_workers = round(grad_workers)
         if local_rank >= world_size:
             raise ValueError(
                 'local_rank={local_rank} larger than world_size={world_size}',
